@@ -1,7 +1,7 @@
 /-
   C08 — Counting filters count exactly and removal undoes addition.
 
-  Counting Bloom filter (`PyProb.CBF`, countingbloom.py), all proved for every geometry `k ≥ 1`,
+  Counting Bloom filter (`PyProb.CBF`, countingbloom.py), proved for every geometry `k ≥ 1`,
   `m ≥ 1`, every hash strategy (positions of one key may coincide), every history:
   * `C08_cbf_undo`   : below the saturation limit, `remove_alt` after `add_alt` restores the state
                         exactly (cells and counter), whatever the multiplicities of the positions.
@@ -9,13 +9,36 @@
                         `Σ_keys outstanding(key) · multiplicity(key, cell)`, and every call returns a value.
   * `C08_cbf_lower`  : hence `check` never reports less than the key's outstanding additions.
   * `C08_cbf_absent` : removing a key that `check` reports absent changes nothing and returns 0.
+  * `C08_cbf_short`  : a hash list shorter than `k` raises IndexError and changes nothing.
+
+  Counting cuckoo filter (`PyProb.Cuckoo` with `counting = true`, countingcuckoo.py), proved for
+  every fingerprint hash `G`, every oracle (sequence of random draws), every table satisfying the
+  invariant `Ccf.Inv` (no duplicate fingerprint in the table, every bin in one of its two candidate
+  buckets, counts ≥ 1; established by `new`, preserved by every operation). The definitions used
+  in the statements (`Ccf.Inv`, `Ccf.countOf`, `Ccf.Op`, `Ccf.run`, `Ccf.NoKick`, `Ccf.AllAddsOk`,
+  `Ccf.outstanding`, …) are in `PyProb/Lemmas/CcfCount.lean`, the proofs in `CcfCount.lean`,
+  `CcfTable.lean` and `CcfKick.lean`:
+  * `C08_ccf_add_present`, `C08_ccf_add_room`, `C08_ccf_remove`, `C08_ccf_remove_many`,
+    `C08_ccf_remove_last`, `C08_ccf_absent` : the single operations.
+  * `C08_ccf_exact`  : histories without evictions: `check key` = outstanding additions of the keys
+                        sharing the key's fingerprint.
+  * `C08_ccf_exact_with_kicks` : the same for ALL histories in which no call raised, i.e. after any
+                        number of evictions (kick loop) and automatic expansions, for every oracle —
+                        under `0 < expansion_rate` (with rate 0 the model's expansion silently
+                        loses every bin whereas Python raises ZeroDivisionError; see the test in
+                        `CcfCount.lean`).
+  Nothing is left unproved.  Not covered: saturated counting-Bloom cells (the property is stated
+  below the saturation limit), cuckoo counts beyond the uint32 export range.
 -/
+import PyProb.Lemmas.CcfKick
 import PyProb.Lemmas.CbfCore
 
 namespace PyProb.C08
-open PyProb CBF Cbf
 
 /-! ## counting Bloom filter -/
+
+section CountingBloom
+open PyProb CBF Cbf
 
 /-- representation invariant: `m > 0` cells, none negative -/
 def WF (c : CBF) : Prop := c.cells.length = c.m ∧ 0 < c.m ∧ ∀ x ∈ c.cells, 0 ≤ x
@@ -246,7 +269,7 @@ theorem cnt_nonneg (ops : List (Op κ)) (hL : Legit ops) : ∀ i, i ≤ ops.leng
       · simp only [h, if_false]; omega
 
 /-- the invariant of the history theorem -/
-private structure Inv (H : κ → Nat → List Nat) (k m : Nat) (K : List κ) (ops : List (Op κ)) (c : CBF) : Prop where
+private structure CellInv (H : κ → Nat → List Nat) (k m : Nat) (K : List κ) (ops : List (Op κ)) (c : CBF) : Prop where
   k_eq : c.k = k
   m_eq : c.m = m
   len : c.cells.length = m
@@ -254,7 +277,7 @@ private structure Inv (H : κ → Nat → List Nat) (k m : Nat) (K : List κ) (o
   lt : ∀ j, c.cells.getD j 0 < Gen.uint32Max
 
 private theorem inv_wf {H : κ → Nat → List Nat} {k m : Nat} {K : List κ} {ops : List (Op κ)} {c : CBF}
-    (hm : 0 < m) (inv : Inv H k m K ops c) (hc : ∀ key, 0 ≤ cnt ops key) : WF c := by
+    (hm : 0 < m) (inv : CellInv H k m K ops c) (hc : ∀ key, 0 ≤ cnt ops key) : WF c := by
   refine ⟨inv.len.trans inv.m_eq.symm, inv.m_eq ▸ hm, ?_⟩
   apply mem_iff_getD
   intro j hj
@@ -267,9 +290,9 @@ private theorem inv_wf {H : κ → Nat → List Nat} {k m : Nat} {K : List κ} {
 private theorem inv_step {H : κ → Nat → List Nat} {k m : Nat} {K : List κ} (hk : 0 < k) (hm : 0 < m)
     (hH : ∀ key, (H key k).length = k) (hK : K.Nodup)
     {ops : List (Op κ)} {c : CBF} (op : Op κ) (hop : op.key ∈ K)
-    (inv : Inv H k m K ops c) (hc : ∀ key, 0 ≤ cnt ops key)
+    (inv : CellInv H k m K ops c) (hc : ∀ key, 0 ≤ cnt ops key)
     (hleg : legitAt ops op) (hroom : roomAt H c op) :
-    (∃ v, (step H c op).2 = .ok v) ∧ Inv H k m K (ops ++ [op]) (step H c op).1 := by
+    (∃ v, (step H c op).2 = .ok v) ∧ CellInv H k m K (ops ++ [op]) (step H c op).1 := by
   have wf := inv_wf hm inv hc
   have hlen : 0 < c.cells.length := by rw [inv.len]; exact hm
   have hposmult : ∀ key j, (pos c (H key c.k)).count j = mult H k m key j := by
@@ -361,7 +384,7 @@ private theorem inv_step {H : κ → Nat → List Nat} {k m : Nat} {K : List κ}
       rw [Int.mul_neg]; omega
 
 private theorem inv_new (H : κ → Nat → List Nat) (est fpr32 k m : Nat) (K : List κ) :
-    Inv H k m K [] (CBF.new est fpr32 k m) := by
+    CellInv H k m K [] (CBF.new est fpr32 k m) := by
   refine ⟨rfl, rfl, by simp [CBF.new], ?_, ?_⟩
   · intro j hj
     have : (K.map fun key => cnt ([] : List (Op κ)) key * (mult H k m key j : Int)) = K.map fun _ => 0 := by
@@ -383,8 +406,8 @@ private theorem inv_prefix (H : κ → Nat → List Nat) (est fpr32 k m : Nat) (
     (hH : ∀ key, (H key k).length = k) (K : List κ) (hK : K.Nodup) (ops : List (Op κ))
     (hcov : ∀ op ∈ ops, op.key ∈ K) (hL : Legit ops) (hU : Unsat H (CBF.new est fpr32 k m) ops) :
     ∀ i, i ≤ ops.length →
-      Inv H k m K (ops.take i) (run H (CBF.new est fpr32 k m) (ops.take i)) := by
-  apply prefix_induction_all (fun pre => Inv H k m K pre (run H (CBF.new est fpr32 k m) pre))
+      CellInv H k m K (ops.take i) (run H (CBF.new est fpr32 k m) (ops.take i)) := by
+  apply prefix_induction_all (fun pre => CellInv H k m K pre (run H (CBF.new est fpr32 k m) pre))
   · exact inv_new H est fpr32 k m K
   · intro i hi inv
     rw [run_append]
@@ -496,5 +519,159 @@ example :
 example : (checkAlt (CBF.new 10 0 3 4) (exH 1 3)).toOption = some 0 ∧
     (removeAlt (CBF.new 10 0 3 4) (exH 1 3) 5).1 = CBF.new 10 0 3 4 ∧
     (removeAlt (CBF.new 10 0 3 4) (exH 1 3) 5).2.toOption = some 0 := by decide
+
+end CountingBloom
+
+/-! ## counting cuckoo filter -/
+
+section CountingCuckoo
+open PyProb Cuckoo
+open PyProb.Ccf (Inv countOf SameParams SameCfg NoKick AllAddsOk outstanding)
+
+/-- the invariant holds of a fresh filter -/
+theorem C08_ccf_inv_new (G : Nat → Nat) (cap b maxSwaps rate : Nat) (auto : Bool) (fpBits : Nat)
+    (h : 0 < cap) : Inv G (Cuckoo.new true cap b maxSwaps rate auto fpBits) :=
+  Ccf.inv_new G cap b maxSwaps rate auto fpBits h
+
+/-- under the invariant `check` reads the count stored for the key's fingerprint anywhere in the table -/
+theorem C08_ccf_check {G : Nat → Nat} {c : Cuckoo} (inv : Inv G c) (h : Nat) :
+    check G c h = countOf c (c.fingerprint h) := Ccf.ccf_check inv h
+
+/-- **add of a key whose fingerprint is stored**: exactly that bin's count goes up by one (all
+    other bins, their order and their buckets unchanged), `check` returns old + 1, no random draw
+    is consumed, the invariant is kept. -/
+theorem C08_ccf_add_present {G : Nat → Nat} {c : Cuckoo} (inv : Inv G c) (h : Nat) (oracle : List Nat)
+    (hp : 0 < countOf c (c.fingerprint h)) :
+    ∃ c', add G c h oracle = (c', none, oracle) ∧ Inv G c' ∧ SameParams c c' ∧
+      c'.count = c.count + 1 ∧ c'.unique = c.unique ∧
+      c'.buckets = c.buckets.map (fun bkt => bkt.map (Ccf.bump (c.fingerprint h))) ∧
+      countOf c' (c.fingerprint h) = countOf c (c.fingerprint h) + 1 ∧
+      (∀ fp', fp' ≠ c.fingerprint h → countOf c' fp' = countOf c fp') ∧
+      check G c' h = check G c h + 1 := Ccf.ccf_add_present inv h oracle hp
+
+/-- **add of a new fingerprint when one of its two buckets has room**: stored with count 1 -/
+theorem C08_ccf_add_room {G : Nat → Nat} {c : Cuckoo} (inv : Inv G c) (h : Nat) (oracle : List Nat)
+    (habs : countOf c (c.fingerprint h) = 0)
+    (hroom : (c.bucket (indices G c (c.fingerprint h)).1).length < c.b ∨
+             (c.bucket (indices G c (c.fingerprint h)).2).length < c.b) :
+    ∃ c', add G c h oracle = (c', none, oracle) ∧ Inv G c' ∧ SameParams c c' ∧
+      c'.count = c.count + 1 ∧ c'.unique = c.unique + 1 ∧
+      (∃ i, (i = (indices G c (c.fingerprint h)).1 ∨ i = (indices G c (c.fingerprint h)).2) ∧
+          i < c.buckets.length ∧ (c.bucket i).length < c.b ∧
+          c'.buckets = c.buckets.set i (c.bucket i ++ [(c.fingerprint h, 1)])) ∧
+      countOf c' (c.fingerprint h) = 1 ∧
+      (∀ fp', fp' ≠ c.fingerprint h → countOf c' fp' = countOf c fp') ∧
+      check G c' h = 1 := Ccf.ccf_add_room inv h oracle habs hroom
+
+/-- **remove of a present fingerprint** (both cases): returns `true`, the reported count goes
+    down by one, no other fingerprint is affected -/
+theorem C08_ccf_remove {G : Nat → Nat} {c : Cuckoo} (inv : Inv G c) (h : Nat)
+    (hv : 0 < countOf c (c.fingerprint h)) :
+    ∃ c', remove G c h = (c', true) ∧ Inv G c' ∧ SameParams c c' ∧ c'.count = c.count - 1 ∧
+      countOf c' (c.fingerprint h) = countOf c (c.fingerprint h) - 1 ∧
+      (∀ fp', fp' ≠ c.fingerprint h → countOf c' fp' = countOf c fp') ∧
+      check G c' h = check G c h - 1 := Ccf.ccf_remove inv h hv
+
+/-- **remove at count > 1**: the count is decremented, the bin stays in place -/
+theorem C08_ccf_remove_many {G : Nat → Nat} {c : Cuckoo} (inv : Inv G c) (h : Nat)
+    (hv : 1 < countOf c (c.fingerprint h)) :
+    ∃ c', remove G c h = (c', true) ∧ Inv G c' ∧ SameParams c c' ∧
+      c'.count = c.count - 1 ∧ c'.unique = c.unique ∧
+      c'.buckets = c.buckets.map (fun bkt => bkt.map (Ccf.drop1 (c.fingerprint h))) ∧
+      countOf c' (c.fingerprint h) = countOf c (c.fingerprint h) - 1 ∧
+      (∀ fp', fp' ≠ c.fingerprint h → countOf c' fp' = countOf c fp') ∧
+      check G c' h = check G c h - 1 := Ccf.ccf_remove_many inv h hv
+
+/-- **remove at count 1**: the bin is dropped, `check` returns 0 afterwards -/
+theorem C08_ccf_remove_last {G : Nat → Nat} {c : Cuckoo} (inv : Inv G c) (h : Nat)
+    (hv : countOf c (c.fingerprint h) = 1) :
+    ∃ c', remove G c h = (c', true) ∧ Inv G c' ∧ SameParams c c' ∧
+      c'.count = c.count - 1 ∧ c'.unique = c.unique - 1 ∧
+      (∃ i, (i = (indices G c (c.fingerprint h)).1 ∨ i = (indices G c (c.fingerprint h)).2) ∧
+          (c.fingerprint h, 1) ∈ c.bucket i ∧
+          c'.buckets = c.buckets.set i ((c.bucket i).erase (c.fingerprint h, 1))) ∧
+      c.fingerprint h ∉ c'.buckets.flatten.map (·.1) ∧
+      countOf c' (c.fingerprint h) = 0 ∧
+      (∀ fp', fp' ≠ c.fingerprint h → countOf c' fp' = countOf c fp') ∧
+      check G c' h = 0 := Ccf.ccf_remove_last inv h hv
+
+/-- **Removing a key the filter reports absent changes nothing and says so.** -/
+theorem C08_ccf_absent {G : Nat → Nat} {c : Cuckoo} (inv : Inv G c) (h : Nat)
+    (h0 : check G c h = 0) : remove G c h = (c, false) := Ccf.ccf_absent inv h h0
+
+/-- **Exact counts, histories without evictions** (`NoKick`: every add finds its fingerprint stored
+    or room in one of its two buckets): `check key` = outstanding additions of the keys sharing the
+    key's fingerprint; no call raised, no random draw was consumed, the invariant holds. -/
+theorem C08_ccf_exact (G : Nat → Nat) (cap b maxSwaps rate : Nat) (auto : Bool) (fpBits : Nat)
+    (hcap : 0 < cap) (oracle : List Nat) (ops : List Ccf.Op)
+    (hk : NoKick G (Cuckoo.new true cap b maxSwaps rate auto fpBits, oracle) ops) :
+    Inv G (Ccf.run G (Cuckoo.new true cap b maxSwaps rate auto fpBits) oracle ops).1 ∧
+    SameParams (Cuckoo.new true cap b maxSwaps rate auto fpBits)
+      (Ccf.run G (Cuckoo.new true cap b maxSwaps rate auto fpBits) oracle ops).1 ∧
+    (Ccf.run G (Cuckoo.new true cap b maxSwaps rate auto fpBits) oracle ops).2 = oracle ∧
+    AllAddsOk G (Cuckoo.new true cap b maxSwaps rate auto fpBits, oracle) ops ∧
+    ∀ h, check G (Ccf.run G (Cuckoo.new true cap b maxSwaps rate auto fpBits) oracle ops).1 h =
+      outstanding (Cuckoo.new true cap b maxSwaps rate auto fpBits).fingerprint ops
+        ((Cuckoo.new true cap b maxSwaps rate auto fpBits).fingerprint h) :=
+  Ccf.ccf_exact G cap b maxSwaps rate auto fpBits hcap oracle ops hk
+
+/-- the full statement: evictions and automatic expansions allowed, any oracle -/
+def C08_ccf_exact_with_kicks_statement : Prop :=
+  ∀ (G : Nat → Nat) (cap b maxSwaps rate : Nat) (auto : Bool) (fpBits : Nat), 0 < cap → 0 < rate →
+  ∀ (oracle : List Nat) (ops : List Ccf.Op),
+    AllAddsOk G (Cuckoo.new true cap b maxSwaps rate auto fpBits, oracle) ops →
+    ∀ h, check G (Ccf.run G (Cuckoo.new true cap b maxSwaps rate auto fpBits) oracle ops).1 h =
+      outstanding (Cuckoo.new true cap b maxSwaps rate auto fpBits).fingerprint ops
+        ((Cuckoo.new true cap b maxSwaps rate auto fpBits).fingerprint h)
+
+/-- **Exact counts after any number of evictions and expansions**: the full statement holds. -/
+theorem C08_ccf_exact_with_kicks : C08_ccf_exact_with_kicks_statement :=
+  Ccf.ccf_exact_with_kicks
+
+/-- the same with the invariant and the unchanged settings at the end made explicit -/
+theorem C08_ccf_exact_any (G : Nat → Nat) (cap b maxSwaps rate : Nat) (auto : Bool) (fpBits : Nat)
+    (hcap : 0 < cap) (hrate : 0 < rate) (oracle : List Nat) (ops : List Ccf.Op)
+    (hok : AllAddsOk G (Cuckoo.new true cap b maxSwaps rate auto fpBits, oracle) ops) :
+    Inv G (Ccf.run G (Cuckoo.new true cap b maxSwaps rate auto fpBits) oracle ops).1 ∧
+    SameCfg (Cuckoo.new true cap b maxSwaps rate auto fpBits)
+      (Ccf.run G (Cuckoo.new true cap b maxSwaps rate auto fpBits) oracle ops).1 ∧
+    ∀ h, check G (Ccf.run G (Cuckoo.new true cap b maxSwaps rate auto fpBits) oracle ops).1 h =
+      outstanding (Cuckoo.new true cap b maxSwaps rate auto fpBits).fingerprint ops
+        ((Cuckoo.new true cap b maxSwaps rate auto fpBits).fingerprint h) :=
+  Ccf.ccf_exact_any G cap b maxSwaps rate auto fpBits hcap hrate oracle ops hok
+
+/-! ### non-vacuity (tests on concrete instances; more in `CcfCount.lean` / `CcfKick.lean`) -/
+
+/-- test fingerprint hash -/
+def exG : Nat → Nat := fun fp => fp + 1
+/-- 3 buckets of 2 slots; fingerprint 3 stored with count 2, fingerprint 4 once -/
+def exT : Cuckoo := ⟨true, 3, 2, 5, 2, false, 8, [[(3, 2)], [(4, 1)], []], 3, 2⟩
+
+example : Inv exG exT := by decide
+-- key 259 shares fingerprint 3 with key 3
+example : exT.fingerprint 259 = 3 ∧ check exG exT 259 = 2 ∧ check exG (add exG exT 259 []).1 3 = 3 := by decide
+example : check exG (remove exG exT 3).1 259 = 1 ∧ check exG (remove exG exT 4).1 4 = 0 ∧
+    (remove exG exT 4).1.buckets = [[(3, 2)], [], []] := by decide
+example : check exG exT 5 = 0 ∧ remove exG exT 5 = (exT, false) := by decide
+example := C08_ccf_add_present (G := exG) (c := exT) (by decide) 259 [] (by decide)
+example := C08_ccf_remove_many (G := exG) (c := exT) (by decide) 3 (by decide)
+example := C08_ccf_remove_last (G := exG) (c := exT) (by decide) 4 (by decide)
+example := C08_ccf_absent (G := exG) (c := exT) (by decide) 5 (by decide)
+
+/-- a history on 3 one-slot buckets with a real eviction chain (not `NoKick`), no call raising -/
+def exKick : List Ccf.Op := [.add 3, .add 4, .add 6, .add 3, .remove 4]
+example : ¬ NoKick exG (Cuckoo.new true 3 1 5 2 false 8, [0, 0, 0, 7]) exKick := by decide
+example : AllAddsOk exG (Cuckoo.new true 3 1 5 2 false 8, [0, 0, 0, 7]) exKick := by decide
+example : check exG (Ccf.run exG (Cuckoo.new true 3 1 5 2 false 8) [0, 0, 0, 7] exKick).1 3 = 2 ∧
+    check exG (Ccf.run exG (Cuckoo.new true 3 1 5 2 false 8) [0, 0, 0, 7] exKick).1 4 = 0 ∧
+    check exG (Ccf.run exG (Cuckoo.new true 3 1 5 2 false 8) [0, 0, 0, 7] exKick).1 6 = 1 := by decide
+example := C08_ccf_exact_any exG 3 1 5 2 false 8 (by decide) (by decide) [0, 0, 0, 7] exKick (by decide)
+/-- a history with an automatic expansion (capacity 1 → 2) -/
+example : AllAddsOk exG (Cuckoo.new true 1 1 2 2 true 8, [0, 0, 0]) [.add 1, .add 1, .add 2] ∧
+    (Ccf.run exG (Cuckoo.new true 1 1 2 2 true 8) [0, 0, 0] [.add 1, .add 1, .add 2]).1.cap = 2 ∧
+    check exG (Ccf.run exG (Cuckoo.new true 1 1 2 2 true 8) [0, 0, 0] [.add 1, .add 1, .add 2]).1 1 = 2 := by
+  decide
+
+end CountingCuckoo
 
 end PyProb.C08
